@@ -49,6 +49,7 @@ import (
 	"github.com/dfklegend/cell2/pomelonet/server/session"
 	"github.com/dfklegend/cell2/utils/common"
 	"github.com/dfklegend/cell2/utils/logger"
+	"github.com/dfklegend/cell2/utils/logger/proxy"
 	"github.com/dfklegend/cell2/utils/sche"
 	"github.com/sirupsen/logrus"
 )
@@ -87,6 +88,8 @@ type pconn struct {
 	sess     *session.ClientSession
 	ev       []string // Impl-level callbacks
 	ow       []string // owner handler callbacks
+	cbp      string   // scripted close callbacks that panic: h = handler's per-session one, c = the sessions' one
+	filled   bool     // its send queue was filled up by `fill`
 }
 
 func (c *pconn) set(b byte) { c.mu.Lock(); c.rdState = b; c.mu.Unlock() }
@@ -208,6 +211,8 @@ type H struct {
 	base    int
 	base0   int
 	cbH     int
+	x       *hx.T
+	armed   string
 }
 
 func (h *H) connOf(s pi.IClientSession) *pconn {
@@ -298,16 +303,50 @@ func (r *rec) OnSessionAdd(fs *cs.FrontSession) {
 	}
 	c.ow = append(c.ow, fmt.Sprintf("a%d", fs.GetNetId()))
 	// a per-session close callback registered with the real HandlerComponent
-	r.h.hc.AddOnSessionClose(fs.GetNetId(), func(ns *service.NodeService, fs *cs.FrontSession) { r.h.cbH++ })
+	r.h.hc.AddOnSessionClose(fs.GetNetId(), func(ns *service.NodeService, fs *cs.FrontSession) {
+		r.h.cbH++
+		if strings.Contains(c.cbp, "h") {
+			panic("scripted panic in the handler's close callback")
+		}
+	})
 }
 
 func (r *rec) OnSessionRemove(fs *cs.FrontSession) {
 	c := r.connOfFS(fs)
 	r.h.cbH = 0
+	// recorded whatever the callback does (a panic travels on to the scheduler's recover)
+	defer func() {
+		if c != nil {
+			c.ow = append(c.ow, fmt.Sprintf("r%d", r.h.cbH))
+		}
+	}()
 	r.h.hc.OnSessionRemove(fs)
-	if c != nil {
-		c.ow = append(c.ow, fmt.Sprintf("r%d", r.h.cbH))
+}
+
+// chanRoom: free slots of the session's send queue (read-only peek at the unexported channel);
+// ok=false when the field is not there any more (then nothing ever fills the queue)
+func chanRoom(s *session.ClientSession) (room int, ok bool) {
+	defer func() {
+		if e := recover(); e != nil {
+			ok = false
+		}
+	}()
+	f := reflect.ValueOf(s).Elem().FieldByName("chSend")
+	if !f.IsValid() || f.Kind() != reflect.Chan {
+		return 0, false
 	}
+	return f.Cap() - f.Len(), true
+}
+
+func (h *H) wouldBlock(c *pconn) bool {
+	c.mu.Lock()
+	closed := c.closed
+	c.mu.Unlock()
+	if closed || c.sess.GetStatus() == session.StatusClosed {
+		return false
+	}
+	room, ok := chanRoom(c.sess)
+	return ok && room == 0
 }
 
 func setCounter(css *impls.ClientSessions, n uint32) (ok bool) {
@@ -445,6 +484,9 @@ func (h *H) reset(next int, hasNext bool) string {
 	h.css.SetOnCloseHandler(func(ns *service.NodeService, fs *cs.FrontSession) {
 		if c := r.connOfFS(fs); c != nil && len(c.ow) > 0 && strings.HasPrefix(c.ow[len(c.ow)-1], "r") {
 			c.ow[len(c.ow)-1] += "1"
+			if strings.Contains(c.cbp, "c") {
+				panic("scripted panic in the sessions' close callback")
+			}
 		}
 	})
 	h.cfg = session.NewSessionConfig(nil)
@@ -550,8 +592,49 @@ func (h *H) exec(op string) string {
 	if ws[0] != "reset" && h.conns == nil {
 		return "bad-op"
 	}
+	if strings.HasPrefix(ws[0], "<harness-exit") {
+		// replay of a run that died: the armed op is what killed it
+		ws = []string{"go"}
+	}
 	switch ws[0] {
+	case "arm":
+		// only recorded; the trace is flushed so that a process death during `go` leaves the case on disk
+		h.armed = strings.Join(ws[1:], " ")
+		if h.x != nil {
+			h.x.Flush()
+		}
+		return "ok"
+	case "go":
+		if h.armed == "" {
+			return "none"
+		}
+		op := h.armed
+		h.armed = ""
+		return h.exec(op)
+	case "fill":
+		if c == nil {
+			return "none"
+		}
+		n := hx.KVInt(ws, "n")
+		c.mu.Lock()
+		ok := c.wrParked && !c.closed
+		c.mu.Unlock()
+		room, known := chanRoom(c.sess)
+		if !ok || c.sess.GetStatus() == session.StatusClosed || (known && n > room) || n > 9999 {
+			return "none"
+		}
+		for i := 0; i < n; i++ {
+			c.sess.Push("onFill", []byte("z"))
+		}
+		c.filled = true
+		synctest.Wait()
+		room, known = chanRoom(c.sess)
+		if !known {
+			room = 9999 - n
+		}
+		return h.obs(k, fmt.Sprintf(",q=%d", 9999-room))
 	case "reset":
+		h.armed = ""
 		_, has := hx.KV(ws, "next")
 		return h.reset(hx.KVInt(ws, "next"), has)
 	case "open":
@@ -560,6 +643,7 @@ func (h *H) exec(op string) string {
 		}
 		c = &pconn{k: k, in: make(chan item), rdGrant: make(chan grant), wrGrant: make(chan bool), closedCh: make(chan struct{}),
 			rdState: 'x', hsOK: true}
+		c.cbp, _ = hx.KV(ws, "cbp")
 		h.conns[k] = c
 		h.order = append(h.order, k)
 		h.mu.Lock()
@@ -635,11 +719,14 @@ func (h *H) exec(op string) string {
 		if c == nil {
 			return "none"
 		}
+		if h.css.GetSession(c.sess.GetId()) != nil && h.wouldBlock(c) {
+			return "none"
+		}
 		h.css.PushMsg(&msgs.PushMsg{Ids: []uint32{c.sess.GetId()}, Route: "onNews", Data: []byte(`{"n":1}`)})
 		synctest.Wait()
 		return h.obs(k, "")
 	case "spush":
-		if c == nil {
+		if c == nil || h.wouldBlock(c) {
 			return "none"
 		}
 		err := c.sess.Push("onNews", []byte(`{"n":2}`))
@@ -666,6 +753,7 @@ type gen struct {
 	hx   *hx.T
 	nmid map[int]int
 	ph   map[int]int // what the generator believes: 0 nothing sent, 1 handshake sent, 2 ack sent
+	fills bool       // this case may fill a send queue (10k pushes: not every case)
 }
 
 func (g *gen) mid(k int) int {
@@ -763,6 +851,12 @@ func (g *gen) next(maxConn int) string {
 	R := g.hx.R
 	h := g.h
 	if len(h.order) == 0 || (len(h.order) < maxConn && R.Intn(6) == 0) {
+		switch R.Intn(12) {
+		case 0:
+			return fmt.Sprintf("open c=%d cbp=h", len(h.order)+1)
+		case 1:
+			return fmt.Sprintf("open c=%d cbp=c", len(h.order)+1)
+		}
 		return fmt.Sprintf("open c=%d", len(h.order)+1)
 	}
 	k := h.order[R.Intn(len(h.order))]
@@ -770,6 +864,15 @@ func (g *gen) next(maxConn int) string {
 	c.mu.Lock()
 	st, parked, closed := c.rdState, c.wrParked, c.closed
 	c.mu.Unlock()
+	// a non-reading client: the writer is parked in Write, the application fills the send queue
+	if parked && !closed && !c.filled && g.fills && c.sess.GetStatus() == session.StatusWorking && R.Intn(4) == 0 {
+		if room, ok := chanRoom(c.sess); ok && room > 0 {
+			return fmt.Sprintf("fill c=%d n=%d", k, room)
+		}
+	}
+	if c.filled && !closed && R.Intn(3) == 0 {
+		return "adv dt=10000" // the heartbeat tick parks on the full queue
+	}
 	r := R.Intn(100)
 	// mostly: what moves this connection forward
 	switch {
@@ -875,18 +978,24 @@ func opKind(op string) string {
 	return ws[0]
 }
 
+func quiet() {
+	logger.SetLogLevel(logrus.PanicLevel)
+	if l := proxy.GetLogs().GetLog("exception"); l != nil {
+		l.SetLogLevel(logrus.PanicLevel) // recovered panics of scripted callbacks are logged with a stack
+	}
+	log.SetOutput(io.Discard)
+}
+
 // TestTCP: the tcp smoke engine (real sockets, real time)
 func TestTCP(t *testing.T) {
-	logger.SetLogLevel(logrus.PanicLevel)
-	log.SetOutput(io.Discard)
+	quiet()
 	x := hx.Open()
 	runTCP(x, nil)
 	x.Close()
 }
 
 func TestRun(t *testing.T) {
-	logger.SetLogLevel(logrus.PanicLevel)
-	log.SetOutput(io.Discard)
+	quiet()
 	if ops := hx.ReplayOps(); ops != nil && isTCPReplay(ops) {
 		x := hx.Open()
 		runTCP(x, ops)
@@ -895,7 +1004,7 @@ func TestRun(t *testing.T) {
 	}
 	synctest.Test(t, func(t *testing.T) {
 		x := hx.Open()
-		h := &H{}
+		h := &H{x: x}
 		count := func(op, obs string) {
 			x.Count("op:" + opKind(op))
 			if obs == "none" {
@@ -905,6 +1014,10 @@ func TestRun(t *testing.T) {
 		run := func(op string) string {
 			obs := hx.Guard(func() string { return h.exec(op) })
 			x.Emit(op, obs)
+			if strings.HasPrefix(op, "arm ") {
+				// the step that follows may kill the process: the case so far must be on disk
+				x.Flush()
+			}
 			count(op, obs)
 			return obs
 		}
@@ -919,7 +1032,7 @@ func TestRun(t *testing.T) {
 			n := hx.EnvInt("VERIF_N", 3000)
 			canWrap := setCounter(impls.NewClientSessions("probe"), 5)
 			for x.N < n {
-				g := &gen{h: h, hx: x, nmid: map[int]int{}, ph: map[int]int{}}
+				g := &gen{h: h, hx: x, nmid: map[int]int{}, ph: map[int]int{}, fills: x.R.Intn(25) == 0}
 				reset := "reset"
 				if canWrap && x.R.Intn(12) == 0 {
 					// ids around the wrap of the 32-bit counter (0 is skipped)
@@ -942,7 +1055,21 @@ func TestRun(t *testing.T) {
 						pre[k] = [2]bool{c.rdState == 'h' || c.rdState == 'm', c.wrParked}
 						c.mu.Unlock()
 					}
-					obs := run(op)
+					anyFilled := false
+					for _, k := range h.order {
+						if h.conns[k].filled {
+							anyFilled = true
+						}
+					}
+					var obs string
+					if anyFilled {
+						// a sender may be parked on a full queue: a step that closes the session could kill the process
+						run("arm " + op)
+						obs = run("go")
+						x.Count("armed-step")
+					} else {
+						obs = run(op)
+					}
 					ows := hx.Words(op)
 					if ows[0] == "in" && obs != "none" {
 						lastIn[hx.KVInt(ows, "c")] = opKind(op)
@@ -986,7 +1113,8 @@ func TestRun(t *testing.T) {
 				if open > 0 {
 					x.Count("closed-by:end")
 				}
-				run("end")
+				run("arm end")
+				run("go")
 			}
 		}
 		x.Close()
